@@ -14,11 +14,15 @@ import sys
 import time
 
 VERIF = os.path.dirname(os.path.dirname(os.path.abspath(__file__)))
-REPO = "/repo"
+# VERIF_REPO (development only): evaluate a scratch copy of the repository (seeded changes) without touching /repo.
+# Everything such a run writes goes under .build-alt, including its evidence and replay files.
+REPO = os.environ.get("VERIF_REPO", "/repo")
+ALT = REPO != "/repo"
 SPEC = os.path.join(VERIF, "spec")
-GEN = os.path.join(SPEC, "gen")
-BUILD = os.path.join(VERIF, ".build")
+BUILD = os.path.join(VERIF, ".build-alt" if ALT else ".build")
+GEN = os.path.join(BUILD, "gen") if ALT else os.path.join(SPEC, "gen")
 HARNESS = os.path.join(VERIF, "harness")
+OUT = BUILD if ALT else VERIF          # where evidence/ and replays/ go
 CP = "/opt/veriftools/tla/tla2tools.jar:/opt/veriftools/tla/CommunityModules-deps.jar"
 GUARD = "daniel729_chess_verif"
 NPROC = 14
@@ -52,7 +56,20 @@ def cargo_env():
 def build_harness(profile="release"):
     """(Re)build the harness from /repo's current working tree (sources included by path)."""
     args = ["cargo", "build", "--offline", "--profile", profile]
-    p = sh(args, cwd=HARNESS, env=cargo_env(), check=False)
+    hdir = HARNESS
+    if ALT:
+        # a copy of the harness whose #[path] attributes point at the scratch repository
+        hdir = os.path.join(BUILD, "hsrc", "harness")
+        os.makedirs(os.path.join(hdir, "src"), exist_ok=True)
+        os.makedirs(os.path.join(hdir, ".cargo"), exist_ok=True)
+        for f in ["Cargo.toml", "Cargo.lock"] + ["src/" + x for x in os.listdir(os.path.join(HARNESS, "src"))]:
+            text = open(os.path.join(HARNESS, f)).read().replace('"/repo/src/', '"%s/src/' % REPO)
+            dst = os.path.join(hdir, f)
+            if not os.path.exists(dst) or open(dst).read() != text:
+                open(dst, "w").write(text)
+        cfgt = open(os.path.join(HARNESS, ".cargo", "config.toml")).read().replace('"../.build/harness"', '"%s"' % os.path.join(BUILD, "harness"))
+        open(os.path.join(hdir, ".cargo", "config.toml"), "w").write(cfgt)
+    p = sh(args, cwd=hdir, env=cargo_env(), check=False)
     if p.returncode != 0:
         raise ToolError("harness build failed:\n" + p.stderr[-4000:])
     d = "release" if profile == "release" else profile
@@ -254,7 +271,7 @@ class Run:
         self.notes = []
         self.nreplay = 0
         self.seen = set()
-        for old in glob.glob(os.path.join(VERIF, "replays", prop + "-*.json")):
+        for old in glob.glob(os.path.join(OUT, "replays", prop + "-*.json")):
             os.remove(old)
 
     def add_mc(self, res, constants=None):
@@ -270,7 +287,7 @@ class Run:
 
     def replay_path(self):
         self.nreplay += 1
-        d = os.path.join(VERIF, "replays")
+        d = os.path.join(OUT, "replays")
         os.makedirs(d, exist_ok=True)
         return os.path.join(d, "%s-%d.json" % (self.prop, self.nreplay))
 
@@ -301,8 +318,8 @@ class Run:
         ev = {"property_id": self.prop, "tier": self.tier, "seed": self.seed, "level": self.level,
               "coverage": self.cov, "assumptions": self.assumptions, "wall_s": round(wall, 1),
               "violations": len(self.violations), "known_findings": self.known_hits, "notes": self.notes}
-        os.makedirs(os.path.join(VERIF, "evidence"), exist_ok=True)
-        with open(os.path.join(VERIF, "evidence", self.prop + ".json"), "w") as f:
+        os.makedirs(os.path.join(OUT, "evidence"), exist_ok=True)
+        with open(os.path.join(OUT, "evidence", self.prop + ".json"), "w") as f:
             json.dump(ev, f, indent=1, ensure_ascii=False)
         for n in self.notes:
             print("NOTE " + n)
